@@ -164,7 +164,15 @@ func (r *gatewayController) buildCanaryHeaderHttpRoutes(rules []gatewayv1beta1.H
 	for i := range rules {
 		rule := rules[i]
 		if _, canaryRef := getServiceBackendRef(rule, r.conf.CanaryService); canaryRef != nil {
-			continue
+			_, stableRef := getServiceBackendRef(rule, r.conf.StableService)
+			if stableRef == nil {
+				// canary rule generated by a previous match step
+				continue
+			}
+			// the rule still carries the split of a previous weight step: restore it, never drop the user's rule
+			filterOutServiceBackendRef(&rule, r.conf.CanaryService)
+			stableRef.Weight = utilpointer.Int32(1)
+			setServiceBackendRef(&rule, *stableRef)
 		}
 		desired = append(desired, rule)
 		if _, stableRef := getServiceBackendRef(rule, r.conf.StableService); stableRef == nil {
@@ -215,6 +223,10 @@ func (r *gatewayController) buildCanaryWeightHttpRoutes(rules []gatewayv1beta1.H
 		rule := rules[i]
 		_, stableRef := getServiceBackendRef(rule, r.conf.StableService)
 		if stableRef == nil {
+			if _, generated := getServiceBackendRef(rule, r.conf.CanaryService); generated != nil {
+				// canary rule generated by a previous match step: a weight step must not keep it
+				continue
+			}
 			desired = append(desired, rule)
 			continue
 		}
